@@ -297,6 +297,11 @@ func runMem(id int, sc Scenario, inits []InitDef, seed int64) Rec {
 		case "truncate":
 			mut(func() { mfs.files[mainPath] = []byte{} })
 			ok = send(mainPath, fsnotify.Write)
+		case "prune":
+			// an old rotated file goes away (logrotate's / auditd's num_logs): an event for a sibling of the live file
+			old := filepath.Join(dir, "audit.log.9")
+			mut(func() { delete(mfs.files, old) })
+			ok = send(old, fsnotify.Remove)
 		case "create":
 			mut(func() { mfs.files[mainPath] = []byte{} })
 			ok = send(mainPath, fsnotify.Create) && send(mainPath, fsnotify.Chmod)
